@@ -3,10 +3,14 @@ package props
 import (
 	"go/token"
 	"go/types"
+	"os"
+	"path/filepath"
+	"strconv"
 	"strings"
 
 	"golang.org/x/tools/go/ssa"
 
+	"gohbaseverif/bounds"
 	"gohbaseverif/kit"
 )
 
@@ -1096,5 +1100,267 @@ func errorCarriesAssembledRow(c *kit.Ctx) {
 	})
 	if n == 0 {
 		c.Unk(next, "error-carries-row", next.Pos(), "no error return found after the row assembly in Next")
+	}
+}
+
+// scanRequestLevelOptions: options of a scan that apply to every request of the scan - also to the
+// continuation / renewal / close requests that carry a scanner id and return early from Scan.ToProto -
+// are put into the ScanRequest before that early return: whenever such a field is assigned under an
+// option of the Scan, no return of ToProto is reachable with the option set but the field unassigned.
+// Shared by C06.R3 and C14.R5 (a renewal sent without renew=true is an ordinary next(): the renewer
+// swallows rows).
+func scanRequestLevelOptions(c *kit.Ctx) {
+	p := c.P
+	tp := p.Func("hrpc", "Scan", "ToProto")
+	if tp == nil {
+		c.Unk(nil, "request-level-option", token.NoPos, "hrpc.Scan.ToProto not found")
+		return
+	}
+	n := 0
+	kit.Instrs(tp, func(in ssa.Instruction) {
+		st, ok := in.(*ssa.Store)
+		if !ok {
+			return
+		}
+		fa, ok := st.Addr.(*ssa.FieldAddr)
+		if !ok || !strings.HasSuffix(fa.X.Type().String(), "pb.ScanRequest") {
+			return
+		}
+		// the option the assignment is conditional on: a true fact about a field of the Scan
+		var opt *types.Var
+		for _, f := range kit.FactsAt(st.Block()) {
+			if !f.Pol {
+				continue
+			}
+			if _, fv := kit.FieldRead(kit.Root(f.Cond)); fv != nil {
+				opt = fv
+			}
+		}
+		if opt == nil {
+			return
+		}
+		n++
+		e := mustPass(tp, func(x ssa.Instruction) bool { return x == ssa.Instruction(st) }, func(from, to *ssa.BasicBlock) bool {
+			for _, f := range kit.EdgeFacts(from, to) {
+				if _, fv := kit.FieldRead(kit.Root(f.Cond)); fv == opt && !f.Pol {
+					return true
+				}
+			}
+			return false
+		})
+		c.Check(e == nil, tp, "request-level-option "+kit.FieldVar(fa.X.Type(), fa.Field).Name(), st.Pos(), "assigned on every path on which "+opt.Name()+" is set, including the early return of requests that carry a scanner id",
+			"the request field "+kit.FieldVar(fa.X.Type(), fa.Field).Name()+" is only assigned on the path that opens a scanner: requests that carry a scanner id return before it, so e.g. a lease renewal goes out as an ordinary next() whose rows the renewer throws away: "+c.BlockPath(e))
+	})
+	if n == 0 {
+		c.Unk(tp, "request-level-option", tp.Pos(), "no option-dependent field of the ScanRequest found (Renew was confirmed)")
+	}
+}
+
+// scanEndBoundaries: isDone compares the scan's stop row with the boundary of the region just
+// finished inclusively: forward stop <= region stop key, reversed stop >= region start key. With a
+// strict test a stop row that coincides with a region boundary makes the scanner open the next region
+// with an empty range [stop, stop), which HBase answers like a Get of that row. Shared by C06.R2.
+func scanEndBoundaries(c *kit.Ctx) {
+	p := c.P
+	isd := p.Func("", "scanner", "isDone")
+	if isd == nil {
+		c.Unk(nil, "scan-end-boundary", token.NoPos, "scanner.isDone not found")
+		return
+	}
+	n := 0
+	seen := map[string]bool{}
+	check := func(cond ssa.Value, pos token.Pos) {
+		cmp, ok := kit.CanonCmp(cond, true)
+		if !ok || !cmp.Bytes {
+			return
+		}
+		name := func(v ssa.Value) string {
+			if call, ok := kit.Root(v).(*ssa.Call); ok {
+				nm := kit.CalleeName(call)
+				switch {
+				case strings.HasSuffix(nm, "hrpc.Scan).StopRow"):
+					return "stop"
+				case nm == hrpcRI+"StopKey":
+					return "regionStop"
+				case nm == hrpcRI+"StartKey":
+					return "regionStart"
+				}
+			}
+			return ""
+		}
+		x, y, op := name(cmp.X), name(cmp.Y), cmp.Op
+		if x != "stop" && y == "stop" {
+			x, y = y, x
+			op = map[token.Token]token.Token{token.LSS: token.GTR, token.GTR: token.LSS, token.LEQ: token.GEQ, token.GEQ: token.LEQ, token.EQL: token.EQL, token.NEQ: token.NEQ}[op]
+		}
+		if x != "stop" || y == "" || y == "stop" {
+			return
+		}
+		key := x + y
+		if seen[key+op.String()] {
+			return
+		}
+		seen[key+op.String()] = true
+		n++
+		switch y {
+		case "regionStop":
+			c.Check(op == token.LEQ || op == token.GTR, isd, "scan-end-boundary forward", pos, "forward: done when stop row <= region stop key", "the forward end-of-scan test is strict: a stop row equal to a region boundary is not recognised as the end and the next region is opened with the empty range [stop, stop)")
+		case "regionStart":
+			c.Check(op == token.GEQ || op == token.LSS, isd, "scan-end-boundary reversed", pos, "reversed: done when stop row >= region start key", "the reversed end-of-scan test is strict: a stop row equal to a region boundary is not recognised as the end")
+		}
+	}
+	kit.Instrs(isd, func(in ssa.Instruction) {
+		switch x := in.(type) {
+		case *ssa.If:
+			check(x.Cond, x.Pos())
+		case *ssa.BinOp:
+			check(x, x.Pos())
+		}
+	})
+	if n < 2 {
+		c.Unk(isd, "scan-end-boundary", isd.Pos(), "the two comparisons of the scan's stop row with the region boundaries were not found in isDone")
+	}
+}
+
+// scanResultsFullyPopulated: shared by C06.R1 and C11.K1.
+func scanResultsFullyPopulated(c *kit.Ctx) {
+	p := c.P
+	dcb := p.Func("hrpc", "Scan", "DeserializeCellBlocks")
+	if dcb == nil {
+		c.Unk(nil, "results-fully-populated", token.NoPos, "hrpc.Scan.DeserializeCellBlocks not found")
+		return
+	}
+	eng := bounds.New(p)
+	// every slot of the Results slice is filled: it is as long as the slice the filling loop ranges over
+	kit.Instrs(dcb, func(in ssa.Instruction) {
+		mk, ok := in.(*ssa.MakeSlice)
+		if !ok || !strings.Contains(mk.Type().String(), "pb.Result") {
+			return
+		}
+		// the loop that stores into it
+		var ranged ssa.Value
+		kit.Instrs(dcb, func(x ssa.Instruction) {
+			ia, ok := x.(*ssa.IndexAddr)
+			if !ok || !strings.Contains(ia.X.Type().String(), "pb.Result") {
+				return
+			}
+			if sl, isR := rangeOfIndex(ia.Index); isR {
+				ranged = sl
+			}
+		})
+		if ranged == nil {
+			c.Unk(dcb, "results-fully-populated", mk.Pos(), "the loop that fills the results was not recognised")
+			return
+		}
+		n1 := eng.Lin(mk.Len)
+		n2 := eng.LenOf(ranged)
+		ok1, _ := eng.Prove(n1.Sub(n2), mk.Block(), kit.InstrIndex(mk))
+		ok2, _ := eng.Prove(n2.Sub(n1), mk.Block(), kit.InstrIndex(mk))
+		c.Check(ok1 && ok2, dcb, "results-fully-populated", mk.Pos(), "the results slice has exactly one slot per iteration of the loop that fills it", "the results slice can be longer than the number of results the loop fills in (it is sized by one per-result array and filled by another, and the guard only bounds one by the other): the tail stays nil, Next returns (nil, nil) and the meta lookup dereferences a nil result")
+	})
+}
+
+// cellblockFormMatchesProtoForm: a call type that defines its own ToProto but inherits
+// SerializeCellBlocks from an embedded call (CheckAndPut embeds *Mutate) would be sent, on the
+// cellblock path, as the embedded call - without what its own ToProto adds (the condition of a
+// check-and-put). Such a type must answer CellBlocksEnabled() with false itself. Shared by C05.R5.
+func cellblockFormMatchesProtoForm(c *kit.Ctx) {
+	p := c.P
+	pkg := p.Pkg("hrpc")
+	if pkg == nil {
+		c.Unk(nil, "cellblock-form", token.NoPos, "package hrpc not found")
+		return
+	}
+	n := 0
+	for _, name := range pkg.Scope().Names() {
+		tn, ok := pkg.Scope().Lookup(name).(*types.TypeName)
+		if !ok {
+			continue
+		}
+		named, ok := tn.Type().(*types.Named)
+		if !ok {
+			continue
+		}
+		ms := types.NewMethodSet(types.NewPointer(named))
+		own := func(m string) (declaredHere bool, present bool) {
+			sel := ms.Lookup(pkg, m)
+			if sel == nil {
+				return false, false
+			}
+			return len(sel.Index()) == 1, true
+		}
+		tpOwn, tpHas := own("ToProto")
+		scOwn, scHas := own("SerializeCellBlocks")
+		if !tpHas || !scHas || !tpOwn || scOwn {
+			continue
+		}
+		n++
+		ceOwn, _ := own("CellBlocksEnabled")
+		fn := p.Func("hrpc", name, "CellBlocksEnabled")
+		good := ceOwn && fn != nil
+		if good {
+			kit.Instrs(fn, func(in ssa.Instruction) {
+				if r, ok := in.(*ssa.Return); ok {
+					k, isC := kit.Res(r, 0).(*ssa.Const)
+					if !isC || k.Value == nil || k.Value.ExactString() != "false" {
+						good = false
+					}
+				}
+			})
+		}
+		var at *ssa.Function = fn
+		c.Check(good, at, "cellblock-form "+name, tn.Pos(), name+" has its own ToProto, inherits SerializeCellBlocks, and opts out of cellblocks",
+			name+" defines its own request (ToProto) but inherits the cellblock serialisation of the call it embeds and does not opt out of cellblocks: on connections that use cellblocks it is sent as the embedded call, without what its own ToProto adds (a check-and-put goes out as an unconditional put)")
+	}
+	if n == 0 {
+		c.Unk(nil, "cellblock-form", token.NoPos, "no call type with its own ToProto and an inherited SerializeCellBlocks found (CheckAndPut was confirmed)")
+	}
+}
+
+// exceptionTableOracle: every exception class of the confirmed table (tables/exception_classes.txt,
+// with the reason for each entry) is in the table of its kind. Moving or dropping an entry changes
+// how that fault is survived (a RegionMovedException treated as "come back later" is retried against
+// the old server for ever; a request-specific RetryImmediatelyException treated as a region fault is
+// retried without any wait). New entries are not judged. Shared by C04.R1, C01.R2 and C17.R3.
+func exceptionTableOracle(c *kit.Ctx) {
+	p := c.P
+	path := filepath.Join(c.VerifDir(), "tables", "exception_classes.txt")
+	b, err := os.ReadFile(path)
+	if err != nil {
+		c.Unk(nil, "exception-table-oracle", token.NoPos, "oracle table tables/exception_classes.txt not readable: "+err.Error())
+		return
+	}
+	tableOf := map[string]string{"region": "javaRegionExceptions", "retryable": "javaRetryableExceptions", "server": "javaServerExceptions"}
+	have := map[string]map[string]bool{}
+	for _, t := range tableOf {
+		have[t] = map[string]bool{}
+		for _, k := range mapLiteralKeys(p, "region", p.Global("region", t)) {
+			have[t][k] = true
+		}
+	}
+	e2e := p.Func("region", "", "exceptionToError")
+	n := 0
+	for _, line := range strings.Split(string(b), "\n") {
+		if strings.HasPrefix(line, "#") || strings.TrimSpace(line) == "" {
+			continue
+		}
+		f := strings.SplitN(line, "\t", 3)
+		if len(f) < 3 || tableOf[f[1]] == "" {
+			c.Unk(e2e, "exception-table-oracle", token.NoPos, "malformed oracle line: "+line)
+			continue
+		}
+		n++
+		key := strconv.Quote(f[0])
+		ok := have[tableOf[f[1]]][f[0]] || have[tableOf[f[1]]][key]
+		where := ""
+		for t, ks := range have {
+			if (ks[f[0]] || ks[key]) && t != tableOf[f[1]] {
+				where = " (it is in " + t + " now)"
+			}
+		}
+		c.Check(ok, e2e, "exception-class "+f[0], token.NoPos, f[1]+": "+f[2], f[0]+" is no longer classified as '"+f[1]+"'"+where+": "+f[2])
+	}
+	if n < 10 {
+		c.Unk(e2e, "exception-table-oracle", token.NoPos, "the oracle table has fewer entries than confirmed")
 	}
 }
